@@ -34,4 +34,8 @@ def handle : List Sx → Sx
       Sx.ok (.list ((runAll ar ld s ops).map fun (r, c, l) => .list [r, Sx.ofNat c, Sx.ofNat l]))
     | _, _, _, _ => Sx.bad
   | _ => Sx.bad
+/-- request names served by this module (collected into `JinjaV.Wire.All` by tools/gen_wire_all.py) -/
+def handlers : List (String × (List Sx → Sx)) :=
+  [("tplcache", handle)]
+
 end JinjaV.Wire.TplCache
